@@ -287,8 +287,14 @@ reg(
     "C29",
     "translation_validation",
     "Same writer/reader agreement for yq-locate's printer (yaml::locate) against the parser in yq mode (identifiers may contain inner hyphens). "
-    "Offset->node mapping over multi-document streams is not decided.",
-    [only_cfgs(_lazy("locate", "rule_locate", module="yaml::locate", mode="Yq", name="WRITERREADER(yq-locate)"), ["cli"])],
+    "POSTAB evaluates the text-position structures behind the offset->node lookup (OpenPositions / AdvancePositions / EndPositions: get in every "
+    "access order, find_last_open_at_text_pos at every position, cursors) from MIR against the plain list on a family of position lists "
+    "(duplicate runs straddling 64-multiples, sparse gaps, > 256 unique positions, dense fallback). The walk from the YAML parser's output to those "
+    "lists, and evaluation of the printed expression, are not decided.",
+    [
+        only_cfgs(_lazy("locate", "rule_locate", module="yaml::locate", mode="Yq", name="WRITERREADER(yq-locate)"), ["cli"]),
+        only_cfgs(_lazy("postab", "rule_positions"), ["cli"]),
+    ],
     quick=["cli"],
     technique="finite-domain evaluation of printer and parser MIR fragments (writer/reader table agreement)",
 )
